@@ -3,8 +3,8 @@ import XpmVerif.Generated.SchedFlags
 /-! C11 — restarting a killed experiment adopts running jobs and repeats nothing.
     Property theorems only.  Model M4 (`Model/Restart.lean`): the scheduler M2 with the adoption path of
     `aio_submit`, job directories (`done`, `pid`, run lock), job processes (coarse M3), and the events
-    `crash` / `crashAfterSpawn` (the scheduler process dies at any step / inside `aio_run` between `Popen` and the
-    pid-file write; every volatile thing is lost, its locks are released, files and job processes survive, a fresh
+    `crash` / `crashAfterSpawn` / `crashInPrepare` (the scheduler process dies at any step / inside `aio_run` between
+    `Popen` and the pid-file write / inside `CommandLineJob.prepare` leaving the job script absent, broken or ready; every volatile thing is lost, its locks are released, files and job processes survive, a fresh
     scheduler starts over the same workspace).
 
     Every theorem quantifies over *all* worlds `WReach fl totals done0 w`: any initial success markers `done0`,
@@ -167,6 +167,17 @@ theorem lock_held_by_scheduler_excludes_body {fl : Flags} {totals : List Nat} {d
   · intro hb; have := d.held p hp (Or.inl hb); rw [hl] at this; cases this
   · intro hb; have := d.held p hp (Or.inr hb); rw [hl] at this; cases this
 
+/-- **"the others are launched" never trusts what a dead scheduler left of the job script**: whatever the state of
+    `<name>.py` / `params.json` in the job directory (absent, created but incomplete or not executable, complete) —
+    in particular after a death inside `CommandLineJob.prepare` (`crashInPrepare`) — a launch regenerates it: after the
+    callback that launches job `j`, the script of its directory is complete and the pid file names the new process. -/
+theorem launch_regenerates_script (fl : Flags) (a : StA Disk) (j : Nat)
+    (hl : (a.s.jobs j).launches < ((a.s.resume fl j).jobs j).launches) :
+    let a' := runCbA fl world a (.resume j)
+    (a'.d.dir ((a.s.resume fl j).jobs j).ident).script = .ready ∧
+    (a'.d.dir ((a.s.resume fl j).jobs j).ident).pid = some a.d.np ∧ a'.d.np = a.d.np + 1 := by
+  simp [runCbA, hl, world, Disk.setDir, Disk.spawn, upd]
+
 /-! ### non-vacuity: concrete runs (evaluated by the kernel) -/
 
 def fl0 : Flags := { readyGuarded := true, resubmitRegisters := true, abortRechecks := true }
@@ -202,6 +213,16 @@ example :
       [.sched (.submit 5 [] 0 false), .sched .step, .sched (.deliver 0), .sched .step, .crash, .sched (.submit 5 [] 0 false)]
     w.a.s.ready = [.start 0] ∧ (w.a.d.dir (w.a.s.jobs 0).ident).pid = some 0 ∧ w.a.d.alive 0 = true := by decide
 
+/-- the scheduler dies inside `prepare` leaving a broken script: the second run regenerates it, launches the job once,
+    the body runs once -/
+example :
+    let w := W.run fl0 (W.init [] (fun _ => false))
+      [.sched (.submit 5 [] 0 false), .sched .step, .sched (.deliver 0), .crashInPrepare 0 .broken,
+       .sched (.submit 5 [] 0 false), .sched .step, .sched (.deliver 0), .sched .step, .sched (.deliver 0), .sched .step,
+       .proc 0 true, .proc 0 true, .proc 0 true, .sched (.deliver 0), .sched .step, .sched (.deliver 0), .sched .step]
+    (w.a.d.dir 5).script = .ready ∧ (w.a.s.jobs 0).launches = 1 ∧ (w.a.s.jobs 0).pc = .finished .done ∧
+    (w.a.d.dir 5).bodies = 1 ∧ (w.a.d.dir 5).spawns = 1 := by decide
+
 /-- a finished job is not repeated: the marker left by the first run makes the second run's job DONE without launch -/
 example :
     let w := W.run fl0 (W.init [] (fun _ => false))
@@ -212,6 +233,6 @@ example :
     (w.a.d.dir 5).bodies = 1 := by decide
 
 /-- obligation on the current source: the three scheduler repairs are present (the driver runs the model with these flags) -/
-theorem scheduler_flags : Gen.schedFlags = { readyGuarded := true, resubmitRegisters := true, abortRechecks := true } := by decide
+theorem scheduler_flags : Gen.schedFlags.readyGuarded = true ∧ Gen.schedFlags.resubmitRegisters = true ∧ Gen.schedFlags.abortRechecks = true := by decide
 
 end XpmVerif.C11
